@@ -28,6 +28,10 @@ type FileCase struct {
 	// uninterrupted run (crash cases only; -1 unknown).
 	KeptExpect int `json:"kept_expect,omitempty"`
 	keptExpect int
+	// FailJob: that job raises an error once; mrp ends failed and is
+	// restarted on the directory (nothing is killed, so every removal of both
+	// incarnations is on record and the accounting is decided).
+	FailJob string `json:"fail_job,omitempty"`
 }
 
 func pathsIn(v *progen.Val, out []string) []string {
@@ -363,6 +367,44 @@ func evalFile(prop string, c FileCase) (viol []string, res *Result, note string)
 	}
 	run := func() (*Result, []string) {
 		var v []string
+		if c.FailJob != "" {
+			dir, err := os.MkdirTemp("/dev/shm", "psxf-")
+			if err != nil {
+				return &Result{Err: err.Error()}, nil
+			}
+			defer os.RemoveAll(dir)
+			inc1 := Run(p, Schedule{}, Options{VdrMode: c.Params.Mode, MrpPid: 6161, PsDir: dir, Fault: &Fault{Job: c.FailJob, Kind: "errors-early", Times: 1}})
+			if strings.HasPrefix(inc1.Err, "invoke:") || inc1.State != "failed" {
+				inc1.Err = "invoke: the fault site was not reached"
+				return inc1, nil
+			}
+			r := Run(p, Schedule{}, Options{VdrMode: c.Params.Mode, MrpPid: 6262, PsDir: dir, Resume: true, Inspect: func(r *Result) {
+				if strings.HasPrefix(r.Err, "invoke:") {
+					return
+				}
+				// the removals of both incarnations count
+				r.Removed = append(append([]Removal{}, inc1.Removed...), r.Removed...)
+				r.FileProblems = append(append([]string{}, inc1.FileProblems...), r.FileProblems...)
+				r.OutsideEffects = append(append([]string{}, inc1.OutsideEffects...), r.OutsideEffects...)
+				for k, n := range inc1.Written {
+					if _, ok := r.Written[k]; !ok {
+						if r.Written == nil {
+							r.Written = map[string]int64{}
+						}
+						r.Written[k] = n
+					}
+				}
+				v = fileOracle(prop, c.Params, r)
+			}})
+			if strings.HasPrefix(r.Err, "invoke:") {
+				return r, nil
+			}
+			for i := range v {
+				v[i] = strings.ReplaceAll(v[i], dir, "<scratch>")
+			}
+			r.Dir = dir
+			return r, v
+		}
 		if c.CrashAt > 0 {
 			c.keptExpect = -1
 			if c.KeptExpect > 0 {
@@ -672,6 +714,59 @@ func FileCheck(prop string) {
 			continue
 		}
 		r.Outcome("crash-restart-ok")
+	}
+	// a job fails, mrp ends failed and is restarted: for the crash shapes and
+	// every job as the failing one
+	type fitem struct {
+		d   progen.FileParams
+		job string
+	}
+	var fitems []fitem
+	for _, d := range shapes {
+		p := progen.FileFlow(d)
+		if p == nil {
+			continue
+		}
+		base := Run(p, Schedule{}, Options{VdrMode: d.Mode, MrpPid: 6161})
+		if base.Err != "" || base.State != "complete" {
+			continue
+		}
+		seen := map[string]bool{}
+		for _, j := range base.Jobs {
+			if !seen[j.Key] {
+				seen[j.Key] = true
+				fitems = append(fitems, fitem{d, j.Key})
+			}
+		}
+	}
+	for wi, it := range fitems {
+		if !r.Mine(wi) {
+			continue
+		}
+		if r.Expired("fail-and-restart enumeration") {
+			break
+		}
+		c := FileCase{Params: it.d, FailJob: it.job}
+		viol, _, note := evalFile(prop, c)
+		if note != "" {
+			r.Eval("")
+			r.Outcome("failrestart-" + strings.SplitN(note, ":", 2)[0])
+			if strings.HasPrefix(note, "nonreproducible") {
+				r.Inconclusive(fmt.Sprintf("%s fail %s and restart: %s", it.d.String(), it.job, note))
+			}
+			continue
+		}
+		r.Eval(fmt.Sprintf("%s|fail@%s", it.d.String(), it.job))
+		r.Add("fail_restart_runs", 1)
+		if len(viol) > 0 {
+			r.Outcome("violation")
+			c.Program = progen.FileFlow(c.Params).MRO()
+			for _, v := range viol {
+				r.Report(ev.Finding{Sig: fileSig(prop, "after-failure-and-restart: "+v), What: fmt.Sprintf("%s, job %s failed once, mrp restarted: %s", it.d.String(), it.job, v), Case: c})
+			}
+			continue
+		}
+		r.Outcome("fail-restart-ok")
 	}
 	r.Done()
 }
